@@ -12,6 +12,22 @@ NOTE_SYS = ("Trusted: Coq 8.16.1 kernel (+vm_compute for examples), extraction (
             "only if the generated histories distinguish it.")
 
 TEXTS = {
+ "C01": ("Kernel-checked theorems: finishing a span yields exactly one SubmitSpans with the sampled items and then the "
+         "root's commit; the channel only thins (never duplicates, invents or reorders) for every capacity and "
+         "interleaving; a receiver is given up only on an empty pop after the producer is gone; in the default "
+         "configuration nothing stays buffered across a cycle; the records of a set are exactly its recorded spans. "
+         "The end-to-end statement (each accepted set reported exactly once by the first cycle that begins after its "
+         "push) is shown by correspondence on orchestrated histories -- cycles split into begin/pop/check/process steps "
+         "placed between single pushes, thread exit right after the last push -- and by a live run with the real "
+         "background thread and flush(). 'Within about one report interval' is wall-clock and only measured (partial).",
+         "DESIGN.md 6/C01"),
+ "C07": ("Kernel-checked theorem by induction over all well-nested programs of the thread-local layer, in both "
+         "profiles and for all capacities: no explicit panic site of the recording path (index, debug assertions, "
+         "unwrap) is reached when ids are non-zero (K3 boundary); a send performs at most |overflow|+1 ring operations. "
+         "The whole API surface is compared panic/no-panic per call under catch_unwind with a watchdog, in the dev and "
+         "release profiles, including closures that re-enter, full queues, exceeded limits and no-op/empty parent sets. "
+         "Partial: absence of panics inside std/rtrb/rand, real blocking of parking_lot and calls from TLS destructors "
+         "are runtime facts exercised by the harness only.", "DESIGN.md 6/C07"),
  "C02": ("Kernel-checked theorems: system-wide invariant over ALL histories and schedules that every reported record "
          "carries a trace id supplied with a sampled root; a root's token/record carry the supplied trace id and remote "
          "parent; issued child tokens name the issuing span as parent, one item per parent; records of a local-span set "
